@@ -11,8 +11,8 @@ import (
 
 func init() {
 	register(&core.Property{
-		ID:    "C12",
-		Title: "A change is never lost to a transient failure: the next reconcile applies it",
+		ID:          "C12",
+		Title:       "A change is never lost to a transient failure: the next reconcile applies it",
 		Explanation: "Static decision of the retry protocol's structure: (1) on every error exit of HAProxyUpdate the pending-change markers (itemsAdd/itemsDel/changed/changedShards, cleared by config.Commit) must survive — today Commit is deferred and runs on all six error exits, which are listed as known findings; a seventh exit or a new early Commit is a new violation; (2) a `written` marker (frontend.Maps) is set only after every fallible write of that step succeeded; (3) every path of HAProxyUpdate that could not update dynamically and returns nil has enqueued or performed a reload; (4) the error of HAProxyUpdate is what ReconcileIngress returns and Reconcile turns it into a requeue after Config.ReloadRetry; (5) a failed reload re-adds itself after ReloadRetry and records the failed state.",
 		NotDecided: []string{
 			"that the retry actually converges (needs executions with injected faults)",
